@@ -127,12 +127,15 @@ def possibleReferencedIds (s : MSt) (cc : CallingConvention) (ext : ExternSymbol
   else
     ext.parameters.foldl (fun acc p => unionIds acc (argIds s p)) []
 
-/-- `assume_arbitrary_writes_to_object` for every identifier of the set -/
-def assumeWrites (objs : Objs) (ids : List Nat) : Objs :=
+/-- `assume_arbitrary_writes_to_object(id, all)` for every identifier of `ids` -/
+def assumeWritesWith (all : List Nat) (objs : Objs) (ids : List Nat) : Objs :=
   ids.foldl (fun m id =>
     match objGet m id with
-    | some o => objSet m id (o.assumeArbitraryWrites ids)
+    | some o => objSet m id (o.assumeArbitraryWrites all)
     | none => m) objs
+
+/-- the loop of `handle_generic_extern_call` over the set of possibly referenced identifiers -/
+def assumeWrites (objs : Objs) (ids : List Nat) : Objs := assumeWritesWith ids objs ids
 
 /-- `update_call_stub` (x86, generic extern symbol): clear the registers that are not callee-saved, pop the return
 address, clear stack parameters, assume arbitrary writes to every object reachable from the parameters.
